@@ -261,11 +261,12 @@ class Decompiler(object):
             if before_yield:
                 prev = decompiler.instructions[-1] if decompiler.instructions else None
                 if (opname.startswith('POP_JUMP_IF_') and arg[0] == i
-                        or opname == 'JUMP_FORWARD' and prev and 'JUMP_IF' in prev[2] and prev[3] == [i]):
+                        or opname == 'JUMP_FORWARD' and (arg[0] == i or prev and 'JUMP_IF' in prev[2] and prev[3] in ([i], arg))):
                     # py 3.12 folds a constant operand of and/or/not/if-else away and leaves a test whose two
-                    # branches continue at the same place (`if x or 1`) or an if-else without a body
-                    # (`if (1 if x else y)`); the jump analysis cannot tell them from real conditions and would
-                    # silently return a different expression
+                    # branches continue at the same place (`if x or 1`, also as a test followed by a JUMP_FORWARD to its
+                    # own target: `if (x and 0 if y else z) or w`), an if-else without a body (`if (1 if x else y)`) or a
+                    # JUMP_FORWARD to the next instruction (`if (x if y else 0 and z) or w`); the jump analysis cannot
+                    # tell them from real conditions and would silently return a different expression
                     throw(DecompileError('Condition with a constant operand cannot be decompiled, '
                                          'try to pass query as string, e.g. select("x for x in Something")'))
                 merge = False
@@ -292,6 +293,12 @@ class Decompiler(object):
                         raise DecompileError(f"Unsupported instruction combination: {prev[2]} + {opname}")
                     if merge:
                         old_endpos = prev[3][0]
+                        if old_endpos != i:
+                            # `POP_JUMP_IF_x L; JUMP_BACKWARD` is "continue the loop unless x" only when L is the
+                            # instruction after the JUMP_BACKWARD; with a folded constant operand (`(b or 0) if a else c`)
+                            # L is farther away and the code between would wrongly become part of the condition
+                            throw(DecompileError('Condition with a constant operand cannot be decompiled, '
+                                                 'try to pass query as string, e.g. select("x for x in Something")'))
                         prev[1] = i
                         prev[3] = arg
                         decompiler.instructions[-1] = tuple(prev)
